@@ -335,12 +335,13 @@ OBLIGATIONS = [
          findings=[dict(id="C18-uneven-depth", pred="uneven(par, src, dst)")]),
     dict(name="nested_request", fn="nested_request", timeout=1000,
          parts={"quick": ["src == %d and dst == %d and par[4] == -1 and nxt < 4 and hook < 4" % (a, b)
-                          for a, b in ((1, 0), (2, 1))],
+                          for a, b in ((1, 0), (2, 1))]
+                + ["src == 0 and dst == 3 and par[1] == -1 and par[2] == 1 and par[3] == 2 and par[4] == -1 and nxt < 4 and hook < 4"],
                 "thorough": ["src == %d and dst == %d and par[4] == -1 and nxt < 4 and hook < 4" % (a, b)
                              for a in range(4) for b in range(4)]},
          functions=["_perform_transition re-entered from an enter handler"],
          bounds="all forests over 4 states; outer transition src->dst, follow-up dst->nxt requested from the enter handler of any state; "
-                "quick: 2 of the 16 (src, dst) pairs, thorough: all 16",
+                "quick: 2 of the 16 (src, dst) pairs plus the 3-level chain 1 > 2 > 3 entered from outside, thorough: all 16",
          outside="follow-ups from leave/called handlers; chains longer than 2",
          findings=[dict(id="C18-uneven-depth", pred="uneven(par, src, dst) or uneven(par, dst, nxt)"),
                    dict(id="C18-nested-parent-entry", pred="par[dst] >= 0 and par[dst] < dst")]),
